@@ -12,10 +12,13 @@ import MetricsVerif.Driver.Tracing
 import MetricsVerif.Driver.Recency
 import MetricsVerif.Driver.Key
 import MetricsVerif.Driver.Cow
+import MetricsVerif.Driver.Bucket
+import MetricsVerif.Driver.Reservoir
 
 open MetricsVerif.Driver
 
 structure DState where
+  reservoir : Option MetricsVerif.Reservoir.ASR := none
   cow : Cow.DSt := {}
   recency : Option MetricsVerif.Recency.St := none
   prom : Option MetricsVerif.Prom.St := none
@@ -48,6 +51,11 @@ def step (st : DState) (line : String) : DState × String :=
   | "cow" :: args =>
     match Cow.handle st.cow args with
     | some (c, o) => ({ st with cow := c }, o)
+    | none => (st, "bad-op")
+  | "bucket" :: args => (st, (Bucket.handle args).getD "bad-op")
+  | "reservoir" :: args =>
+    match Reservoir.handle st.reservoir args with
+    | some (r, o) => ({ st with reservoir := r }, o)
     | none => (st, "bad-op")
   | _ => (st, "bad-op")
 
